@@ -263,12 +263,6 @@ def utf8Dec : BL → Option Str
 
 def utf8 : Encoding := { encode := utf8Enc, decode := utf8Dec }
 
-/-- An encoding known only through what it did to one string (the harness passes the
-result of the real codec): used by the driver for codecs that are not modelled
-(`shift_jis`) and to compare the framing for every codec. -/
-def oracle (enc : Option BL) (dec : Option Str) : Encoding :=
-  { encode := fun _ => enc, decode := fun _ => dec }
-
 /-! ### The layer name: legacy Pascal field + unicode block -/
 
 /-- What a layer record stores about its name: the legacy field and the
